@@ -301,6 +301,59 @@ pub enum Named {
     /// all shares followed by the first one again (a duplicate behind a complete set)
     AllPlusDuplicate,
 }
+
+/// participants of a crafted 3-of-5 sharing in which 1 and 2 hold equal values
+const EQ_SUBSETS: [&[u8]; 7] = [&[1, 2, 3], &[1, 2, 4], &[2, 1, 5], &[5, 2, 1], &[1, 2, 3, 4, 5], &[3, 4, 5], &[1, 3, 5]];
+
+pub struct M12Equal<C: Suite> {
+    _c: PhantomData<C>,
+}
+
+impl<C: Suite> Model for M12Equal<C> {
+    type State = Option<(Scheme, usize)>;
+    type Action = (Scheme, usize);
+    fn name(&self) -> String {
+        format!("c12-equal-valued-shares/{}", C::G)
+    }
+    fn init(&self) -> Vec<Option<(Scheme, usize)>> {
+        vec![None]
+    }
+    fn actions(&self, st: &Option<(Scheme, usize)>) -> Vec<(Scheme, usize)> {
+        if st.is_some() {
+            return vec![];
+        }
+        SCHEMES.iter().flat_map(|s| (0..EQ_SUBSETS.len()).map(move |i| (*s, i))).collect()
+    }
+    fn step(&self, _s: &Option<(Scheme, usize)>, a: &(Scheme, usize)) -> Option<Option<(Scheme, usize)>> {
+        Some(Some(*a))
+    }
+    fn describe(&self, st: &Option<(Scheme, usize)>) -> String {
+        format!("{} 3-of-5 sharing in which participants 1 and 2 hold equal values: {:?}", C::G, st.map(|(s, i)| (s.name(), EQ_SUBSETS[i])))
+    }
+    fn required_outcomes(&self) -> Vec<String> {
+        vec!["equal-values:opens".into()]
+    }
+    fn check(&self, st: &Option<(Scheme, usize)>, o: &mut Obs) {
+        let Some((s, i)) = st else { return };
+        o.nontrivial = true;
+        let sk = SecretKey::<C>::from_hash(b"c12 equal valued shares");
+        let msg = b"a message for equal valued shares".to_vec();
+        let ct = sk.public_key().sign_crypt(lib_scheme(*s), &msg);
+        let all = shares_with_equal_values::<C>(&sk, 5);
+        let pick: Vec<&SecretKeyShare<C>> = EQ_SUBSETS[*i].iter().map(|id| &all[*id as usize - 1]).collect();
+        let r = guard(|| -> Result<(bool, bool, bool), String> {
+            let ds: Vec<SignDecryptionShare<C>> = pick.iter().map(|x| ct.create_decryption_share(x).map_err(|e| e.to_string())).collect::<Result<_, _>>()?;
+            let verifies = pick.iter().zip(ds.iter()).all(|(x, d)| d.verify(&x.public_key().unwrap(), &ct).is_ok());
+            let direct = Option::<Vec<u8>>::from(ct.decrypt_with_shares(&ds)).as_deref() == Some(msg.as_slice());
+            let via = SignCryptDecryptionKey::<C>::from_shares(&ds).map(|k| Option::<Vec<u8>>::from(k.decrypt(&ct)).as_deref() == Some(msg.as_slice())).map_err(|e| e.to_string())?;
+            Ok((verifies, direct, via))
+        });
+        o.calls(5);
+        let ok = matches!(r, Ok(Ok((true, true, true))));
+        o.outcome(if ok { "equal-values:opens" } else { "equal-values:fails" });
+        o.expect(&format!("C12:equal-valued-shares:{}:{}", C::G, s.name()), ok, "shares verify; both routes return the message", &format!("{:?}", r));
+    }
+}
 const NAMED: [Named; 7] = [Named::FirstT, Named::LastT, Named::FirstTReversed, Named::FirstTMinus1, Named::All, Named::Strided, Named::AllPlusDuplicate];
 
 #[derive(Clone, Debug, PartialEq, Eq, Hash, Serialize, Deserialize)]
@@ -317,7 +370,7 @@ impl<C: Suite> M12Big<C> {
     pub fn new(_tier: Tier, seed: u64) -> Self {
         let mut insts = vec![];
         // thresholds beyond the block sizes of fixed scratch buffers (32, 64, 128) and at the identifier limit
-        for (si, (t, n)) in [(65usize, 70usize), (65, 65), (33, 40), (129, 200), (2, 255), (255, 255)].into_iter().enumerate() {
+        for (si, (t, n)) in [(65usize, 70usize), (65, 65), (33, 40), (129, 200), (2, 255), (255, 255), (9, 10), (17, 20), (50, 64), (64, 64), (100, 128), (199, 200)].into_iter().enumerate() {
             let s = SCHEMES[si % 3];
             let sk = SecretKey::<C>::from_hash(format!("c12-big-{}-{}", t, n));
             let shares = sk.split_with_rng(t, n, rand_chacha::ChaCha20Rng::from_seed(data32(seed, &format!("c12-big-split-{}-{}", t, n)))).unwrap();
@@ -513,6 +566,8 @@ pub fn models(tier: Tier, seed: u64) -> Vec<Box<dyn DynModel>> {
         v.push(bounded(M12::<Bls12381G1Impl>::new(tier, seed), 10));
         v.push(bounded(M12::<Bls12381G2Impl>::new(tier, seed), 10));
     }
+    v.push(bounded(M12Equal::<Bls12381G1Impl> { _c: PhantomData }, 1));
+    v.push(bounded(M12Equal::<Bls12381G2Impl> { _c: PhantomData }, 1));
     v.push(bounded(M12Free::<Bls12381G1Impl> { _c: PhantomData }, 1));
     v.push(bounded(M12Free::<Bls12381G2Impl> { _c: PhantomData }, 1));
     v.push(bounded(M12Big::<Bls12381G1Impl>::new(tier, seed), 1));
